@@ -5,6 +5,7 @@ import (
 
 	"github.com/aperturerobotics/util/broadcast"
 	"github.com/aperturerobotics/util/linkedlist"
+	"github.com/aperturerobotics/util/verifhook"
 )
 
 // ConcurrentQueue is a pool of goroutines processing a stream of jobs.
@@ -153,6 +154,7 @@ func (s *ConcurrentQueue) updateLocked(broadcast func()) {
 // executeJob is a goroutine to execute a job function.
 // will continue to run until there are no more jobs.
 func (s *ConcurrentQueue) executeJob(job func()) {
+	verifhook.Go("conc.worker", s)
 	for {
 		if job != nil {
 			job()
